@@ -1,2 +1,2 @@
-CONSTANTS Files = {"a", "b", "c"} Variants = {1, 2, 3, 4} MaxLen = 12 Deviation = "none"
+CONSTANTS Files = {"a", "b", "c"} Variants = {1, 2, 3, 4, 5} MaxLen = 12 Deviation = "none"
 SPECIFICATION Spec
